@@ -377,6 +377,17 @@ func runC17(c *Ctx) {
 	for _, a := range all {
 		terms = append(terms, a)
 	}
+	// two label filters whose selectors PRINT alike but are different:
+	// {aa: ab, ac: ad} and {aa: "ab,ac=ad"}; and the two pods that tell them apart
+	if len(terms)%60 == 59 {
+		terms = append(terms, &Filt{Tag: FNull})
+	}
+	terms = append(terms, &Filt{Tag: FLabels, Map: Map{{1, 2}, {3, 4}}}, &Filt{Tag: FLabels, Map: Map{{1, StrPrinted}}})
+	for i, m := range []Map{{{1, 2}, {3, 4}}, {{1, StrPrinted}}} {
+		o := &Obj{ID: 7001 + i, Kind: KPod, NS: 1, NM: 1, RV: "1", Labels: m, Spec: SPod}
+		objs = append(objs, o)
+		gos = append(gos, o.Go())
+	}
 	groupOf := map[int]int{} // term index -> permutation group
 	for gi, g := range permGroups() {
 		for _, f := range g {
@@ -485,7 +496,7 @@ func runC17(c *Ctx) {
 	acceptMatrix(c, terms, objs)
 	c.Rep.Stats["terms"] = len(terms)
 	c.Rep.Stats["equal_pairs"] = equalPairs
-	c.Rep.Rule = "filter terms over every constructor (Null, All, Not, And, Or, NSName, Labels, LabelSelector, FN, NodeFilter, InvolvedFilter, SelectorMatchFilter, service/rc/workload PodsFilter with permuted sources, ingress ServicesFilter), each built twice; FiltersEqual(left_i, right_j) on diagonal blocks and a seeded off-diagonal sample vs the model's filters_equal; for every pair the implementation reports equal, Accept agreement over the whole object universe. Non-trivial = pair reported equal; distinct by index pair."
+	c.Rep.Rule = "filter terms over every constructor (Null, All, Not, And, Or, NSName, Labels, LabelSelector, FN, NodeFilter, InvolvedFilter, SelectorMatchFilter, service/rc/workload PodsFilter with permuted sources, ingress ServicesFilter), each built twice; FiltersEqual(left_i, right_j) on diagonal blocks and a seeded off-diagonal sample vs the model's filters_equal; for every pair the implementation reports equal, Accept agreement over the whole object universe (which includes label values containing the separators ',' and '=' of a printed selector). Non-trivial = pair reported equal; distinct by index pair."
 	c.Sample(map[string]interface{}{"left": encs[3].String(), "right": encs[3].String(), "equal": goEqual(left[3], right[3])})
 }
 
